@@ -743,7 +743,7 @@ func TestC18(t *testing.T) {
 				return
 			}
 		}
-		for _, fname := range []string{"pck-crl-endpoint-down", "root-crl-endpoint-down", "tcbinfo-endpoint-down", "leaf-revoked", "tcb-level-out-of-date", "module-out-of-date-with-lenient-identity-listed-last", "qe-level-revoked", "tcbinfo-signature-corrupt", "qe-identity-signed-under-a-look-alike-of-the-trusted-root", "quote-carries-an-expired-edition-of-the-trusted-root"} {
+		for _, fname := range []string{"pck-crl-endpoint-down", "root-crl-endpoint-down", "tcbinfo-endpoint-down", "leaf-revoked", "tcb-level-out-of-date", "module-out-of-date-with-lenient-identity-listed-last", "qe-level-revoked", "tcbinfo-signature-corrupt", "qe-identity-signed-under-a-look-alike-of-the-trusted-root", "quote-carries-an-expired-edition-of-the-trusted-root", "leaf-revoked-with-an-entry-dated-after-the-verification-time", "intermediate-revoked-with-an-entry-dated-after-the-verification-time", "signed-tcbinfo-lacks-the-module-identities-an-unsigned-twin-supplies-them", "tcbinfo-signature-member-missing", "qeid-signature-member-null", "intermediate-revoked-and-the-trusted-bundle-also-lists-it"} {
 			for _, forged := range []bool{false, true} {
 				w2 := mkWorld(gen.Seed() + 10)
 				var f gen.Fault
